@@ -84,7 +84,8 @@ func (keys ServerKeys) PublicKey(keyID KeyID, atTS spec.Timestamp) []byte {
 	if currentKey, ok := keys.VerifyKeys[keyID]; ok && (atTS <= keys.ValidUntilTS) {
 		return currentKey.Key
 	}
-	if oldKey, ok := keys.OldVerifyKeys[keyID]; ok && (atTS <= oldKey.ExpiredTS) {
+	// An old key is valid strictly before its expired_ts (as in PublicKeyLookupResult.WasValidAt).
+	if oldKey, ok := keys.OldVerifyKeys[keyID]; ok && (atTS < oldKey.ExpiredTS) {
 		return oldKey.Key
 	}
 	return nil
